@@ -687,6 +687,40 @@ func runC02(r *hx.Run) error {
 			}
 		}
 	}
+	// (b'') round 3, the region of the repaired F102c: C0 controls (one or several, also NUL and US) executed
+	// between the ESC and the `\` of the ST that ends a control string — with and without payload, after a
+	// BEL-terminated string (no suppression left), with CAN / SUB / a second ESC in between, every split
+	for _, intro := range []string{"\x1b]x", "\x1b]", "\x1bPqx", "\x1bP1$r", "\x1b_x", "\x1bXx", "\x1b^", "\x1b]x\x07", ""} {
+		for _, mid := range []string{"\x0a", "\x00", "\x1f", "\x0d\x0a", "\x07", "\x0a\x1b", "\x0a\x18", "\x1a\x0a", "\x0a\x7f", "\x0a "} {
+			for _, tail := range []string{"\\", "\\w", "[1m", "\\\x1b\\"} {
+				d := intro + "\x1b" + mid + tail
+				if len(d) <= 9 {
+					allSplits(s, []byte(d), "st-with-c0")
+				} else {
+					s.add(kase{data: []byte(d), kind: "st-with-c0"})
+					s.add(kase{data: []byte(d), sizes: randomSplit(rng, len(d)), kind: "st-with-c0"})
+				}
+			}
+		}
+	}
+	// (e0) round 3, the region of the repaired F102d: an invalid byte (every kind: FF, C0/C1 lead, stray
+	// continuation, truncated 3- and 4-byte sequence, surrogate, overlong, > U+10FFFF) right after a character
+	// that uniseg joins to what follows (Prepend characters, ZWJ after an emoji, a regional indicator, Hangul L,
+	// a virama), and before one that joins to what precedes (combining mark, ZWJ, variation selector) — every split
+	for _, joiner := range []string{"\u0600", "\u0605", "\u06dd", "\u070f", "\U000110bd", "\U0001f469\u200d", "\U0001f1e9", "\u1100", "\u0915\u094d", "a"} {
+		for _, bad := range []string{"\xff", "\xc0\x80", "\x80", "\xe2\x82", "\xf0\x9f\x91", "\xed\xa0\x80", "\xf4\x90\x80\x80", "\xc3"} {
+			for _, after := range []string{"", "b", "\u0301", "\u200d\U0001f469", "\ufe0f", "\x1b[m"} {
+				d := joiner + bad + after
+				if len(d) <= 10 {
+					allSplits(s, []byte(d), "invalid-after-joiner")
+				} else {
+					s.add(kase{data: []byte(d), kind: "invalid-after-joiner"})
+					s.add(kase{data: []byte(d), sizes: randomSplit(rng, len(d)), kind: "invalid-after-joiner"})
+					s.add(kase{data: []byte(d), sizes: []int{len(joiner)}, kind: "invalid-after-joiner"})
+				}
+			}
+		}
+	}
 	// (e) text with every split
 	nText := 300
 	if r.Thorough {
